@@ -385,3 +385,23 @@ class Report:
             f"evaluations={self.evaluations} violations={self.violations} known={self.known_hits} "
             f"wall={ev['wall_s']}s")
         return 1 if self.violations else 0
+
+
+def apalache_inductive(rep, module, timeout=900):
+    """Unbounded design-level lemma: Apalache discharges Init => IndInv, IndInv /\\ Next => IndInv', IndInv => Lemma
+    for spec/apalache/<module>.tla. A failure is a tool error (the lemma is part of /verif, not of the code)."""
+    outdir = os.path.join(WORK, "apalache_" + module)
+    obligations = [("--init=Init", "--inv=IndInv", "--length=0"), ("--init=IndInit", "--inv=IndInv", "--length=1"),
+                   ("--init=IndInit", "--inv=Lemma", "--length=0")]
+    done = 0
+    for ob in obligations:
+        r = subprocess.run(["timeout", str(timeout), "apalache-mc", "check", f"--out-dir={outdir}", *ob, module + ".tla"],
+                           cwd=os.path.join(SPEC, "apalache"), stdout=subprocess.PIPE, stderr=subprocess.STDOUT, text=True)
+        if "EXITCODE: OK" not in r.stdout:
+            log(r.stdout[-1500:])
+            raise ToolError(f"Apalache obligation {ob} of {module} not discharged")
+        done += 1
+    shutil.rmtree(outdir, ignore_errors=True)
+    rep.extra["apalache_inductive_obligations_discharged"] = done
+    rep.extra["apalache_module"] = module
+    log(f"[apalache] {module}: {done}/3 obligations discharged (unbounded integers)")
